@@ -324,6 +324,16 @@ fn values_strategy(max_len: usize) -> impl Strategy<Value = Vec<i64>> {
         2 => proptest::collection::vec(-100i64..100, 0..max_len),
         2 => proptest::collection::vec(any::<i64>(), 0..max_len),
         1 => proptest::collection::vec(prop_oneof![Just(i64::MIN), Just(i64::MAX), Just(0i64), Just(-1i64), any::<i64>()], 0..max_len),
+        // one value repeated, a few others mixed in (deep recursions for any pivot rule)
+        2 => (0..max_len * 2, proptest::collection::vec((any::<u16>(), -3i64..4), 0..6)).prop_map(|(n, extra)| {
+            let mut v = vec![0i64; n];
+            for (pos, x) in extra {
+                if n > 0 {
+                    v[pos as usize % n] = x;
+                }
+            }
+            v
+        }),
         1 => (0..max_len).prop_map(|n| (0..n as i64).collect::<Vec<_>>()),
         1 => (0..max_len).prop_map(|n| (0..n as i64).rev().collect::<Vec<_>>()),
     ]
